@@ -676,3 +676,11 @@ def _replay_dataflow(spec, r):
     r['failed'] = list(r.get('failed') or []) + failed[:4]
     r['violated'] = bool(r['failed'])
     return r
+
+
+RIM = {'lat': -84.6, 'lon': 150.0, 'alt': 15000.0, 'VN': 250.0, 'VE': -200.0, 'VD': 5.0, 'roll': 120.0, 'pitch': -60.0, 'heading': -170.0}
+
+
+def FALLBACK(tier):
+    """numeric oracle specs put to the compiled code when the symbolic run is inconclusive (main.py)"""
+    return [{'check': chk, 'point': {}, 'params': {'wa': wa, 'cfg': ci}} for chk in ('propagation', 'init', 'result') for wa in (True, False) for ci in range(len(MODEL_CFGS))]
